@@ -8,6 +8,9 @@ R3 without lattice vectors the class is no stricter than the plain grid: every a
    of ``PeriodicGrid.get_localgrid`` that ``Grid.get_localgrid`` does not have must be nested under
    a lattice-presence test, or the method must delegate to the base method when there is no lattice.
 R4 the C10 rules (memo on the points, guarded index arrays) hold for this override.
+R5 shape abstract interpretation: the constructor and the pre-loop part of get_localgrid are free of
+   broadcasting/matmul/index/empty-reduction failures in every admissible configuration (flat 1-D or
+   (N, D) points, 0..D lattice vectors, wrap on/off) and keep one row per lattice vector.
 """
 from __future__ import annotations
 
@@ -188,6 +191,89 @@ def rule_r3(rep, repo, f):
     return n
 
 
+def configurations():
+    """Every shape configuration the statement quantifies over: flat 1-D points (no lattice / one
+    lattice vector) and (N, D) points for D = 1..3 with 0..D lattice vectors, wrapped or not."""
+    out = [("flat 1-D points, no lattice vectors",
+            {"points": ("arr", ("N",)), "weights": ("arr", ("N",)), "realvecs": ("none",), "wrap": ("bool", False)}),
+           ("flat 1-D points, one lattice vector",
+            {"points": ("arr", ("N",)), "weights": ("arr", ("N",)), "realvecs": ("arr", (1,)), "wrap": ("bool", False)}),
+           ("flat 1-D points, one lattice vector, wrapped",
+            {"points": ("arr", ("N",)), "weights": ("arr", ("N",)), "realvecs": ("arr", (1,)), "wrap": ("bool", True)})]
+    for D in (1, 2, 3):
+        for K in range(0, D + 1):
+            rv = ("none",) if K == 0 else ("arr", (K, D))
+            for wrap in (False, True):
+                out.append((f"(N,{D}) points, {K} lattice vectors" + (", wrapped" if wrap else ""),
+                            {"points": ("arr", ("N", D)), "weights": ("arr", ("N",)), "realvecs": rv,
+                             "wrap": ("bool", wrap)}))
+    return out
+
+
+def rule_r5(rep, repo):
+    """Shape abstract interpretation of the constructor and of get_localgrid for every admissible
+    configuration (dimension x number of lattice vectors x wrap): no broadcasting / matmul / index /
+    empty-reduction failure, the configuration is not rejected, and the lattice-related fields have
+    one row (entry) per lattice vector."""
+    from gridlint import e7
+    init = repo.method("PeriodicGrid", "__init__")
+    glg = repo.method("PeriodicGrid", "get_localgrid")
+    n = 0
+    for name, env in configurations():
+        n += 1
+        si = e7.CShapes(env, None)
+        si.run(strip_docstring(init.node.body))
+        K = 0 if env["realvecs"][0] == "none" else (1 if len(env["realvecs"][1]) == 1 else env["realvecs"][1][0])
+        cons = "periodicgrid.PeriodicGrid.__init__"
+        if si.problems:
+            kind, text, node = si.problems[0]
+            rep.violation("R5.constructs-in-every-configuration", cons, f"{name}:{kind}",
+                          f"for {name}: {text} -- the grid cannot be constructed", repo.rel("periodicgrid", node))
+            continue
+        if si.rejected is not None:
+            rep.violation("R5.constructs-in-every-configuration", cons, f"{name}:rejected",
+                          f"for {name} the constructor raises (`{norm(si.rejected)[:60]}`) although the configuration is admissible",
+                          repo.rel("periodicgrid", si.rejected))
+            continue
+        bad = None
+        for fld in ("_spacings", "_frac_intvls", "_recivecs"):
+            v = si.fields.get(fld)
+            if v is None or v[0] != "arr":
+                continue
+            rows = v[1][0] if v[1] else None
+            flat1d = len(env["points"][1]) == 1
+            if rows != K and not (flat1d and K == 1):
+                bad = f"self.{fld} has shape {tuple(v[1])}, expected one row per lattice vector ({K})"
+        if bad:
+            rep.violation("R5.constructs-in-every-configuration", cons, f"{name}:rows",
+                          f"for {name}: {bad}", init.loc())
+            continue
+        # the local-grid query on the constructed object
+        q = e7.CShapes({"center": ("arr", tuple(env["points"][1][1:])) if len(env["points"][1]) > 1 else ("scalar",),
+                        "radius": ("scalar",)}, None)
+        q.fields = dict(si.fields)
+        q.fields.setdefault("_points", env["points"])
+        q.fields.setdefault("_weights", env["weights"])
+        q.fields["_kdtree"] = ("unknown",)
+        body = strip_docstring(glg.node.body)
+        # analyse up to the translation loop (the loop itself is geometric, not shape related)
+        pre = []
+        for st in body:
+            if isinstance(st, ast.For):
+                break
+            pre.append(st)
+        q.run(pre)
+        probs = [p for p in q.problems]
+        if probs:
+            kind, text, node = probs[0]
+            rep.violation("R5.constructs-in-every-configuration", "periodicgrid.PeriodicGrid.get_localgrid", f"{name}:{kind}",
+                          f"for {name}: {text}", repo.rel("periodicgrid", node))
+        else:
+            rep.ok("R5.constructs-in-every-configuration", f"PeriodicGrid[{name}]", init.loc(),
+                   "fields: " + ", ".join(f"{k}{tuple(v[1])}" for k, v in sorted(si.fields.items()) if v[0] == "arr"))
+    rep.floor("shape configurations", n, 20)
+
+
 def run(tier="quick", root="/repo", evidence_dir=None, quiet=False):
     rep = Report(PROP, tier, root, EXPLANATION, RULE, assumptions=[
         "norms, absolute values, even powers and square roots are non-negative; everything else is unknown sign",
@@ -199,6 +285,7 @@ def run(tier="quick", root="/repo", evidence_dir=None, quiet=False):
     ns = rule_r1(rep, repo, f)
     rule_r2(rep, repo)
     rule_r3(rep, repo, f)
+    rule_r5(rep, repo)
     # R4: C10 rules on this override
     from gridlint.props import c10
     sub = Report("C10", tier, root, "", "")
